@@ -644,3 +644,54 @@ pub fn eq_exttrait_a(x: f64, s: f64) -> f64 {
 pub fn eq_exttrait_b(x: f64, s: f64) -> f64 {
     -(x.squared()) / (2.0 * s.squared())
 }
+
+// ---- round 10: count-down and length-counted while loops, resize, boolean guard clauses
+pub fn eq_countdown_a(n: usize, xs: &mut [f64]) {
+    for _ in 0..n {
+        xs[0] = xs[0] * 0.5 + 1.0;
+    }
+}
+pub fn eq_countdown_b(n: usize, xs: &mut [f64]) {
+    let mut left = n;
+    while left > 0 {
+        left -= 1;
+        xs[0] = xs[0] * 0.5 + 1.0;
+    }
+}
+
+pub fn eq_lenwhile_a(d: usize, seed: &mut f64) -> Vec<f64> {
+    let mut v = Vec::with_capacity(d);
+    for _ in 0..d {
+        *seed = *seed * 3.0 + 1.0;
+        v.push(*seed);
+    }
+    v
+}
+pub fn eq_lenwhile_b(d: usize, seed: &mut f64) -> Vec<f64> {
+    let mut v: Vec<f64> = Vec::with_capacity(d);
+    while v.len() < d {
+        *seed = *seed * 3.0 + 1.0;
+        v.push(*seed);
+    }
+    v
+}
+
+pub fn eq_guardbool_a(a: f64, b: f64) -> bool {
+    a >= 0.0 && b >= 0.0
+}
+pub fn eq_guardbool_b(a: f64, b: f64) -> bool {
+    if !(a >= 0.0) {
+        return false;
+    }
+    b >= 0.0
+}
+// `||` is not `&&`
+pub fn ne_guardbool_a(a: f64, b: f64) -> bool {
+    eq_guardbool_b(a, b)
+}
+pub fn ne_guardbool_b(a: f64, b: f64) -> bool {
+    if a >= 0.0 {
+        return true;
+    }
+    b >= 0.0
+}
